@@ -75,6 +75,8 @@ HDR_VARIANTS = [
     ('date', b'DATE: Wed, 31 Dec 2014 23:58:00 +0000', None),
     ('message-id', None, b'message-ID: <orig.1@example.test>'),
     ('both', b'Date: Wed, 31 Dec 2014 23:58:00 +0000', b'Message-Id: <orig.2@example.test>'),
+    # present but empty: still "not absent"
+    ('both-empty', b'Date:', b'Message-Id: '),
 ]
 
 
@@ -542,24 +544,47 @@ def header_variants_for(chain, rcpts):
     full only where it can matter:
       'none'                always (variant 0);
       'both'                for chains of length <= 2 and for every chain with a Date/Message-Id policy;
-      'date', 'message-id'  for chains with a Date/Message-Id policy x lists of length <= 2."""
+      'date', 'message-id', 'both-empty' (fields present with an empty value)
+                            for chains with a Date/Message-Id policy x lists of length <= 2."""
     relevant = 'AddDateHeader' in chain or 'AddMessageIdHeader' in chain
     out = [0]
     if relevant and len(rcpts) <= 2:
-        out += [1, 2]
+        out += [1, 2, 4]
     if relevant or len(chain) <= 2:
         out.append(3)
     return out
 
 
+def reset_mutable_defaults():
+    """A mutable default argument of a policy constructor is state shared by every object built without that argument
+    (and by every execution of this process): emptied before each unit of work so that executions stay independent."""
+    from slimta.policy.split import RecipientSplit as _RS, RecipientDomainSplit as _RDS
+    for cls in (Forward, _RS, _RDS, AddDateHeader, AddMessageIdHeader, AddReceivedHeader):
+        for fn in (getattr(cls, '__init__', None), getattr(cls, 'apply', None)):
+            for d in (getattr(fn, '__defaults__', None) or ()):
+                if isinstance(d, (list, dict, set)) and len(d):
+                    d.clear()
+
+
 def run_chain(chain, cases, res, collect=None):
     """All ``cases`` [(rcpts, hv)] of one chain inside one World, one real Queue."""
     done = []
+    reset_mutable_defaults()
     with World(Chooser(), uuid_modules=('slimta.policy.headers',)) as w:
         store = RecordingStorage()
         queue = Queue(store, relay=None)
+        shared = []
         for name in chain:
-            queue.add_policy(make_policy(name))
+            pol = make_policy(name)
+            queue.add_policy(pol)
+            if name in FORWARD_RULES and len(pol.mapping) != len(FORWARD_RULES[name]):
+                shared.append((name, len(pol.mapping), len(FORWARD_RULES[name])))
+        if shared and res is not None:
+            for name, got, want in shared[:1]:
+                res.violation({'kind': 'policy-objects-share-rules', 'policy': 'Forward'},
+                              'chain %r: the Forward object for %s holds %d rule(s) right after its own %d were added -- rules of '
+                              'another Forward object of the process leaked into it' % (list(chain), name, got, want),
+                              {'chain': list(chain), 'rcpts': list(cases[0][0]) if cases else [], 'hdr': cases[0][1] if cases else 0})
         case = Case(queue, store, chain, w)
 
         def body():
@@ -669,9 +694,12 @@ def replay(rep):
         if name not in POLICY_NAMES:
             raise HarnessError('unknown policy in replay: %r' % (name,))
     collect = []
-    run_chain(chain, [(tuple(rep['rcpts']), int(rep['hdr']))], None, collect)
+    res = Result()
+    run_chain(chain, [(tuple(rep['rcpts']), int(rep['hdr']))], res, collect)
     vs, info = collect[0]
     if vs:
         return True, vs[0][1]
+    if res.violations:
+        return True, res.violations[0]['message']
     return False, ('written recipient groups %r equal the reference; sender, body and original headers intact; '
                    'no shared state between the %d written envelope(s)' % (info['written'], info['n_written']))
